@@ -265,8 +265,13 @@ func runC11(c c11Case) *vh.Outcome {
 					return
 				}
 			}
-			if c.Fault.Kind == "cancel" && id == c.Fault.Caller && cancelled && call.ReturnedAt > cancelledAt+c11Grace {
-				fail = vh.Failf(fmt.Sprintf("C11/hang/%s/%s/cancel", c.Op, c.Backend), "%s on party %d returned %v after its context was cancelled", c.Op, id, call.ReturnedAt-cancelledAt)
+			// measured from the later of (cancellation, start of the call): the call may be started after the cancellation
+			from := cancelledAt
+			if call.StartedAt > from {
+				from = call.StartedAt
+			}
+			if c.Fault.Kind == "cancel" && id == c.Fault.Caller && cancelled && call.ReturnedAt > from+c11Grace {
+				fail = vh.Failf(fmt.Sprintf("C11/hang/%s/%s/cancel", c.Op, c.Backend), "%s on party %d returned %v after its context was cancelled", c.Op, id, call.ReturnedAt-from)
 				return
 			}
 			if c.Fault.Kind == "baddata" && id == c.Fault.Caller && call.Err == nil {
@@ -409,12 +414,17 @@ func TestC11Enum(t *testing.T) {
 					return
 				}
 				ri := ref.Info.(*c11Info)
+				slow := false
 				for _, r := range ri.Results {
 					if r != "ok" {
-						t.Errorf("fault-free reference run did not complete: %+v %v", base, ri.Results)
-						complete = false
-						return
+						slow = true
 					}
+				}
+				if slow {
+					// the schedule spent the whole virtual deadline on delays: not a usable reference
+					st.Record(&vh.Outcome{Discard: "reference-schedule-too-slow-for-deadline"}, nil)
+					complete = false
+					continue
 				}
 				for peer := 1; peer <= cf.n; peer++ {
 					for k := 0; k <= ri.PerPeer[peer]; k++ {
